@@ -99,6 +99,7 @@ OPS1 = {
     "mseq3": ("mg.multiply_sequence({0}, {0}, {0})", lambda t: __import__("mygrad").multiply_sequence(t, t, t), lambda a: a * a * a, lambda s: True),
     "mseq4": ("mg.multiply_sequence({0}, {0}, {0}, {0})", lambda t: __import__("mygrad").multiply_sequence(t, t, t, t), lambda a: a * a * a * a, lambda s: True),
     "aseq3": ("mg.add_sequence({0}, {0}, {0})", lambda t: __import__("mygrad").add_sequence(t, t, t), lambda a: a + a + a, lambda s: True),
+    "viaview": ("{0}[:1] * 2.0", lambda t: t[:1] * 2.0, lambda a: a[:1] * 2.0, lambda s: len(s) >= 1),
     "sumc": ("mg.sum({0}, constant=True)", lambda t: __import__("mygrad").sum(t, constant=True), lambda a: np.asarray(a.sum()), lambda s: True),
     "sum": ("{0}.sum()", lambda t: t.sum(), lambda a: a.sum(), lambda s: True),
     "sum0": (
@@ -384,6 +385,17 @@ class Model:
     def _peek(self, name):
         pass
 
+    raw_ok = None  # {time: bool}: whether the caller's direct write to .data went through (observed on the implementation)
+
+    def _rawwrite(self, name):
+        if (self.raw_ok or {}).get(self.time, False):
+            self.a[name][...] += 0.25
+            self._touch(name)
+
+    def _outc(self, tgt, const):
+        self.a[tgt] *= 2.0
+        self._touch(tgt)
+
     def _del(self, name):
         self.order.remove(name)
         for d in (self.a, self.tag, self.const, self.created):
@@ -522,6 +534,18 @@ class Impl:
         """re-use through a view that is dropped at once"""
         self.t[name][:1]
 
+    def _rawwrite(self, name):
+        """the caller writes into the tensor's array directly; the memory guard must refuse while a live graph uses it"""
+        try:
+            self.t[name].data[...] += 0.25
+            self.raw_written = True
+        except ValueError as e:
+            del e
+            self.raw_written = False
+
+    def _outc(self, tgt, const):
+        self.ret = self.mg.multiply(self.t[tgt], 2.0, out=self.t[tgt], constant=const)
+
 
 # ------------------------------------------------------------------ rendering histories as scripts
 def render_val(val):
@@ -564,6 +588,10 @@ def render(st):
         return "%s.null_grad()" % st[1]
     if k == "peek":
         return "%s[:1]  # a view, dropped at once" % st[1]
+    if k == "rawwrite":
+        return "try: %s.data[...] += 0.25\nexcept ValueError: pass  # direct write by the caller" % st[1]
+    if k == "outc":
+        return "mg.multiply(%s, 2.0, out=%s, constant=%r)" % (st[1], st[1], st[2])
     return repr(st)
 
 
@@ -623,7 +651,7 @@ def uses(st):
     elif k == "out":
         u.append(st[1])
         u += [v[1] for v in (st[3], st[4]) if v[0] == "t"]
-    elif k in ("setshape", "del", "backward", "clear", "null_grad", "reuse", "fail", "peek"):
+    elif k in ("setshape", "del", "backward", "clear", "null_grad", "reuse", "fail", "peek", "rawwrite", "outc"):
         u.append(st[1])
     return u
 
